@@ -11,14 +11,14 @@ import ast
 from typing import Any
 
 from .. import core
-from ..extract import _func, _strs, lean_str
+from ..extract import _func, _strs, lean_str, parse_source
 
 
 def extract() -> dict[str, Any]:
     src = core.REPO / "src" / "nauyaca" / "server" / "middleware.py"
     out: dict[str, Any] = {}
     try:
-        t = ast.parse(src.read_text())
+        t = parse_source(src)
     except Exception:  # noqa: BLE001
         return out
     # --- AccessControl
@@ -59,9 +59,12 @@ def extract() -> dict[str, Any]:
         if found:
             out["aclThirdAttemptGuarded"] = guarded
     # --- RateLimiter response line: f"44 Rate limit exceeded. Retry after {retry_after} seconds\r\n"
-    f = _func(t, "RateLimiter", "process_request")
+    f = next((c for c in ast.walk(t) if isinstance(c, ast.ClassDef) and c.name == "RateLimiter"), None) \
+        if _func(t, "RateLimiter", "process_request") is not None else None
     if f is not None:
-        js = [n for n in ast.walk(f) if isinstance(n, ast.JoinedStr)]
+        # the response line built in process_request or in a private helper of the class: an f-string ending in CRLF
+        js = [n for n in ast.walk(f) if isinstance(n, ast.JoinedStr) and n.values and isinstance(n.values[-1], ast.Constant)
+              and str(n.values[-1].value).endswith("\r\n")]
         if len(js) == 1:
             vals = js[0].values
             if len(vals) == 3 and isinstance(vals[0], ast.Constant) and isinstance(vals[2], ast.Constant) and isinstance(vals[1], ast.FormattedValue) \
@@ -79,7 +82,7 @@ def extract_chain_order() -> dict[str, Any]:
     appends sit in consecutive top-level `if` blocks of start_server, not in loops)"""
     src = core.REPO / "src" / "nauyaca" / "server" / "server.py"
     try:
-        t = ast.parse(src.read_text())
+        t = parse_source(src)
     except Exception:  # noqa: BLE001
         return {}
     def builds_chain(fn):
